@@ -94,6 +94,7 @@ inductive Err where
   | attribute          -- AttributeError (a macro parameter without argument and without default)
   | runtime            -- TemplateRuntimeError (`py:when` outside `py:choose`)
   | stopIter           -- RuntimeError: generator raised StopIteration
+  | notFound           -- TemplateNotFound (include without fallback)
   | unmodelled         -- construct outside the modelled fragment
   | fuel               -- the step did not finish within the fuel given
   deriving DecidableEq, Repr, Inhabited
@@ -143,7 +144,11 @@ inductive TEv where
   | out (e : Event)                 -- START (plain attribute values), END, TEXT, COMMENT, …
   | expr (e : Expr)                 -- EXPR
   | sub (dirs : Ref) (body : Ref)   -- SUB: references to the directive list and the sub-stream list
-  | other                           -- EXEC, INCLUDE, START with interpolated attributes: outside the step model
+  | incl (t : Option Nat) (fb : Option Ref)
+                                    -- INCLUDE with a static href: the template the loader finds for it
+                                    -- (`none`: TemplateNotFound) and the prepared fallback list
+  | other                           -- EXEC, INCLUDE with a computed href, START with interpolated attributes:
+                                    -- outside the step model
   deriving DecidableEq, Repr, Inhabited
 
 inductive Cell where
